@@ -103,8 +103,8 @@ fn offset_queries<S: Subject>(m: &S, lay: &Layout, a: u64, off: usize, cx: &mut 
 fn region_queries<S: Subject>(m: &S, lay: &Layout, t: &mut Tape, cx: &mut Cx) -> Result<(), String> {
     let ri = t.idx(lay.regs.len());
     let (s, l) = lay.regs[ri];
-    let r = m.iter().nth(ri).ok_or("iter shorter than layout")?;
-    ensure!(region_id(r) == (s, l), "iter().nth({}) = {:x?}, want {:x?}", ri, region_id(r), (s, l));
+    let r = m.iter().find(|r| r.start_addr().0 == s).ok_or("region missing from iter()")?;
+    ensure!(region_id(r) == (s, l), "region {} = {:x?}, want {:x?}", ri, region_id(r), (s, l));
     ensure!(r.last_addr().0 == s.wrapping_add(l - 1), "region.last_addr = {:#x}", r.last_addr().0);
     let o = t.size_near(l);
     let ma = MemoryRegionAddress(o);
@@ -129,7 +129,11 @@ fn run_generic<S: Subject>(m: &S, lay: &Layout, t: &mut Tape, cx: &mut Cx) -> Re
     note!(cx, "{} layout {}", m.kind(), lay.describe());
     // collection-level facts
     ensure!(m.num_regions() == lay.regs.len(), "num_regions = {}, layout has {}", m.num_regions(), lay.regs.len());
-    let listed: Vec<(u64, u64)> = m.iter().map(region_id).collect();
+    let mut listed: Vec<(u64, u64)> = m.iter().map(region_id).collect();
+    if m.kind() == "mock" {
+        // another implementation may iterate in any order: compared as a set
+        listed.sort();
+    }
     ensure!(listed == lay.regs, "iter() yields {:x?}, want {:x?}", listed, lay.regs);
     let max_mapped = lay.regs.iter().map(|&(s, l)| s.wrapping_add(l - 1)).max().unwrap();
     ensure!(m.last_addr().0 == max_mapped, "last_addr = {:#x}, greatest mapped address is {:#x}", m.last_addr().0, max_mapped);
@@ -253,7 +257,18 @@ fn run_mmap(t: &mut Tape, cx: &mut Cx) -> Result<(), String> {
 
 fn run_mock(t: &mut Tape, cx: &mut Cx) -> Result<(), String> {
     let lay = gen_layout(t, 5, TopMode::Mock, true);
-    let m = MockMem::new(&lay);
+    // the mock keeps (and iterates) its regions in a tape-chosen order, not necessarily sorted
+    let mut order: Vec<usize> = (0..lay.regs.len()).collect();
+    if t.flag() {
+        for i in (1..order.len()).rev() {
+            let j = t.idx(i + 1);
+            order.swap(i, j);
+        }
+        if order.windows(2).any(|w| w[0] > w[1]) {
+            cx.nt("mock_iterates_unsorted");
+        }
+    }
+    let m = MockMem::new_ordered(&lay, &order);
     run_generic(&m, &lay, t, cx)
 }
 
